@@ -34,8 +34,8 @@ impl Engine for C08 {
     }
     fn runs(&self, tier: Tier) -> u64 {
         match tier {
-            Tier::Quick => 100_000,
-            Tier::Thorough => 2_000_000,
+            Tier::Quick => 500_000,
+            Tier::Thorough => 5_000_000,
         }
     }
     fn gen(&self, seed: u64, index: u64, tier: Tier) -> C08Plan {
